@@ -7,7 +7,7 @@
    * a checker returns `Ok` or `Err kind`, `kind` standing for the `&'static str` message;
      `r ;; k` is the `?` operator; `for x in xs { if .. { return Err(..) } } Ok(())` is
      `first_err xs body`.
-   * argument orders are transcribed literally (see `linearity`). *)
+   * argument orders are transcribed literally. *)
 From Coq Require Import List Bool NArith ZArith Arith Floats.
 Import ListNotations.
 
@@ -245,11 +245,12 @@ End Checkers.
 Section Linear.
   Context {S R T : Type} (eqbR : R -> R -> bool).
 
-  (* NB: the code compares with g(q(b), q(a)) -- transcribed as written *)
+  (* q(f(a,b)) == g(q(a), q(b)).  Before /repo commit 2405c2befba the code compared with
+     g(q(b), q(a)) (finding C09 linearity/g-args-swapped, fixed). *)
   Definition linearity (items : list S) (f : S -> S -> S) (g : R -> R -> R) (q : S -> R) : res :=
     first_err (cartesian_power 2 items) (fun t =>
       match t with
-      | [a; b] => check (eqbR (q (f a b)) (g (q b) (q a))) ELinearity
+      | [a; b] => check (eqbR (q (f a b)) (g (q a) (q b))) ELinearity
       | _ => Ok
       end).
 
